@@ -181,7 +181,7 @@ def snapshot_source(model):
         "lik_training": model.likelihood.training if model.likelihood is not None else None,
         "noise_covar_id": id(getattr(model.likelihood, "noise_covar", None)),
         "fixed": None,
-        "submodule_modes": tuple((n, m.training) for n, m in sorted(model.named_modules(), key=lambda kv: kv[0])),
+        "submodule_modes": tuple((n, m.training) for n, m in sorted(model.named_modules(), key=lambda kv: kv[0]) if isinstance(m, gpytorch.Module)),
         "cache": {},
     }
     lik = model.likelihood
